@@ -211,6 +211,17 @@ func check(c Case) (string, string) {
 	if d := geomgen.Diff(g, got, true); d != "" {
 		return "roundtrip-differs", d
 	}
+	// memory layout: the geometry with its vertex slices cut from one flat
+	// buffer encodes to the same bytes and is not written to
+	if sym, det := geomgen.LayoutCheck(g, func(x geom.Geom) string {
+		var o string
+		if p := try(func() { b, err := wkb.Encode(x, bo); o = fmt.Sprintf("%x %v", b, err) }); p != "" {
+			return "panic: " + p
+		}
+		return o
+	}); sym != "" {
+		return "encode|" + sym, det
+	}
 	// the geometry decoded earlier must survive a later Decode call (history)
 	if p := try(func() { wkb.Decode(otherEnc) }); p == "" {
 		if d := geomgen.Diff(g, got, true); d != "" {
